@@ -99,14 +99,9 @@ Proof.
   destruct (sf_integral (Prim2SF f)); [exact H|split; [reflexivity|exact H]].
 Qed.
 
-(* ---- flint on Python ints ---- *)
-Theorem flint_int_spec : forall z f,
-  int_to_float z = FOk f -> flint (NI z) = Ok (NI (sf_to_Z (Prim2SF f))).
-Proof. intros z f H. unfold flint. rewrite H. reflexivity. Qed.
-
-(* the recorded finding: for |z| > 2^53 the int returned need not be z *)
-Theorem flint_bigint_refuted : exists z z', flint (NI z) = Ok (NI z') /\ z' <> z.
-Proof. exists (2 ^ 60 + 1), (2 ^ 60). split; [vm_compute; reflexivity|vm_compute; discriminate]. Qed.
+(* ---- flint on Python ints: every int, of any size, is returned unchanged ---- *)
+Theorem flint_int_spec : forall z, flint (NI z) = Ok (NI z).
+Proof. intros z. reflexivity. Qed.
 
 Lemma digits2_pos_size : forall p, digits2_pos p = Pos.size p.
 Proof. induction p; cbn; congruence. Qed.
@@ -213,20 +208,18 @@ Proof.
   rewrite V. destruct (z <? 0) eqn:E; [apply Z.ltb_lt in E|apply Z.ltb_ge in E]; lia.
 Qed.
 
-(* Python ints up to 2^53 in absolute value are returned unchanged.  Uses exactly one
-   axiom of the standard library: FloatAxioms.Prim2SF_SF2Prim *)
-Theorem flint_small_int : forall z, Z.abs z <= 2 ^ 53 -> flint (NI z) = Ok (NI z).
+(* the correctly rounded int -> float conversion is exact up to 2^53 (used by the conversion theorems: an int
+   value enters convert_units through int * float) *)
+Theorem int_to_float_small_exact : forall z, z <> 0 -> Z.abs z < 2 ^ 53 ->
+  exists f, int_to_float z = FOk f /\ sf_to_Z (Prim2SF f) = z.
 Proof.
-  intros z Hle.
-  destruct (Z.eq_dec z 0) as [->|Hz]; [vm_compute; reflexivity|].
-  destruct (Z.eq_dec (Z.abs z) (2 ^ 53)) as [Hb|Hb].
-  - assert (Hc : z = 2 ^ 53 \/ z = - 2 ^ 53) by lia.
-    destruct Hc as [-> | ->]; vm_compute; reflexivity.
-  - assert (Hlt : Z.abs z < 2 ^ 53) by lia.
-    rewrite (flint_int_spec z _ (int_to_float_small z Hz Hlt)).
-    rewrite Prim2SF_SF2Prim by (apply small_sf_valid; assumption).
-    rewrite small_sf_value by assumption. reflexivity.
+  intros z Hz Hlt. eexists. split; [exact (int_to_float_small z Hz Hlt)|].
+  rewrite Prim2SF_SF2Prim by (apply small_sf_valid; assumption).
+  apply small_sf_value; assumption.
 Qed.
+
+Theorem flint_small_int : forall z, Z.abs z <= 2 ^ 53 -> flint (NI z) = Ok (NI z).
+Proof. intros z _. apply flint_int_spec. Qed.
 
 (* ================= 2. float error bound (Flocq bridge) ================= *)
 From Coq Require Import Reals Qreals Lra.
